@@ -1,7 +1,8 @@
 """C04: decided on the L1 machine (theorem Ivy.Props.C04.monitor_accepts) + T-replay correspondence."""
-from . import l1, loopgen
+import os
+from . import common, l1, loopgen
 PROP = "C04"
-LEANCHECK_MODULES = ["Ivy.L1.Machine", "Ivy.L1.Exec", "Ivy.Mon.C04", "Ivy.L1.ProofsC04", "Ivy.Props.C04"]
+LEANCHECK_MODULES = ["Ivy.L1.Machine", "Ivy.L1.Exec", "Ivy.Mon.C04", "Ivy.L1.ProofsC04", "Ivy.Props.C04", "Ivy.L0.TimeArith", "Ivy.L0.TimeArithProofs", "Ivy.Props.C04time"]
 FAMILIES = ['deadline', 'mix']
 MONS = ['C04']
 SANS = []
@@ -18,13 +19,27 @@ def nontrivial(log):
     return ("CB t" in log and ("ns int" in log or "ms int" in log)) or "KTIMER" in log
 
 
+TIME_RULE = ("; plus a differential run of the loop's time arithmetic (timespec_gt, to_relative, to_msec, the clock cache, the timer "
+             "descriptor's arm value; harness/timearith_h.c on the real iv_private.h / iv_timer.c / iv_fd_epoll.c) against the statement-level "
+             "model Ivy.L0.TimeArith (theorems Ivy.Props.C04time: never early, at most 1 ms late, cap, agreement of the ms and ns primitives, "
+             "no overflow) on enumerated boundary values and random operands, with an independent exact-integer reference")
+
+
 def run(tier, seed, proof):
-    return l1.run_property(PROP, tier, seed, proof, FAMILIES, MONS, SANS, nontrivial, RULE + KT_RULE,
-                           extra_cases=lambda tier, seed: loopgen.ktimer_cases(seed))
+    res = l1.run_property(PROP, tier, seed, proof, FAMILIES, MONS, SANS, nontrivial, RULE + KT_RULE + TIME_RULE,
+                          extra_cases=lambda tier, seed: loopgen.ktimer_cases(seed))
+    if proof["driver_ok"] and os.path.exists(os.path.join(common.VERIF, "vlib", "c04time.py")):
+        from . import c04time
+        c04time.check(tier, seed, res)
+    return res
 
 
 def search(tier, seed, proof):
     return l1.search_property(PROP, tier, seed, FAMILIES[:1], MONS, SANS)
 
 
-replay = l1.replay
+def replay(path):
+    if path.endswith(".timeops") or "C04:time:" in open(path).read():
+        from . import c04time
+        return c04time.replay(path)
+    return l1.replay(path)
